@@ -214,14 +214,24 @@ def events_from_stream(b):
     return events
 
 
+def space_contracts(b):
+    """Contracts of the action space: the traded contracts, optionally with the cash contract inserted."""
+    cs = list(b.contracts)
+    pos = b.case.get("cash_pos")
+    if pos is not None:
+        cs.insert(pos % (len(cs) + 1), Cash())
+    return cs
+
+
 def make_space(b):
     case = b.case
     sp = case.get("space", ["box", -3.0, 3.0])
     if sp[0] == "box":
-        return BoxPortfolio(list(b.contracts), low=sp[1], high=sp[2], as_weights=(sp[3] if len(sp) > 3 else True),
+        return BoxPortfolio(space_contracts(b), low=sp[1], high=sp[2], as_weights=(sp[3] if len(sp) > 3 else True),
                             fractional=(sp[4] if len(sp) > 4 else True), margin=case.get("threshold", 0.0))
     if sp[0] == "discrete":
-        return DiscretePortfolio(list(b.contracts), allocations=[list(a) for a in sp[1]])
+        return DiscretePortfolio(space_contracts(b), allocations=[list(a) for a in sp[1]],
+                                 as_weights=(sp[2] if len(sp) > 2 else True))
     raise ValueError(sp)
 
 
